@@ -1,3 +1,7 @@
 -- Root of the `KdVerif` library: every property module (which pull in models, generated tables and proofs).
 import KdVerif.Props.C01
 import KdVerif.Props.C15
+import KdVerif.Props.C09
+import KdVerif.Props.C19
+import KdVerif.Props.C04
+import KdVerif.Props.C05
